@@ -163,9 +163,11 @@ def run(prog, check):
                 attr = c.func.value.attr
                 comps = []
                 for i, el in enumerate(c.args[0].elts):
-                    names = {x.id for x in ast.walk(el) if isinstance(x, ast.Name)}
+                    callees = {id(x.func) for x in ast.walk(el) if isinstance(x, ast.Call)}
+                    names = {x.id for x in ast.walk(el) if isinstance(x, ast.Name) and id(x) not in callees}
                     if names & params:
-                        comps.append((i, el, bool(names & forced) and not (names - forced - {'str'})))
+                        # a number rendered in any way cannot carry a name: every data name of the component is float-forced
+                        comps.append((i, el, bool(names & forced) and not (names - forced)))
                 sinks[attr] = (f, comps)
     # which of them reach the final text?  (read in the functions main() runs from the alias pass on)
     readers = {}
